@@ -14,20 +14,27 @@
 (***************************************************************************)
 EXTENDS Integers, Sequences, FiniteSets, TLC, Json
 
-CONSTANTS Schemes, MaxFlows, Emit
+CONSTANTS Schemes, MaxFlows, Emit, GModes
 
 MCCanon == <<"t", "r", "e">>
 MCItemsOf == [t |-> <<1, 2>>, r |-> <<1, 2>>, e |-> <<1, 2>>]
 MCRootOf == [t |-> "t", r |-> "r", e |-> "e"]
 INSTANCE MassBalance WITH Canon <- MCCanon, ItemsOf <- MCItemsOf, RootOf <- MCRootOf
 
-VARIABLES sys, pert, phase, scale
-vars == <<sys, pert, phase, scale>>
+VARIABLES sys, pert, phase, scale, prev
+vars == <<sys, pert, phase, scale, prev>>
+\* `prev`: the perturbation of the FIRST round of checks when a second one follows on the same object (Repair)
 \* `scale`: after the first round of checks ALL values of the system are multiplied by 2^scale and the checks are
 \* run again on the same object.  Two-component numbers are scale free (the unit tol/2 scales along), so every
 \* verdict must be the same: the checks depend on the CURRENT values only, not on earlier calls.
 
 GenG == [lab \in LabelingsOver({"t", "r", "e"}) |-> 1 + 4 * (lab["t"] - 1) + 2 * (lab["r"] - 1) + (lab["e"] - 1)]
+
+\* a second generic array, ANTISYMMETRIC in r: every marginal over r is zero.  Flows without r are all-zero flows,
+\* flows with r carry positive and negative entries that cancel (a net-trade flow).  The contract is about entries,
+\* not about sums: an all-zero flow still restricts the common dimensions, a cancelling flow still counts.
+GenG2 == [lab \in LabelingsOver({"t", "r", "e"}) |-> (IF lab["r"] = 1 THEN 1 ELSE -1) * (1 + 2 * (lab["t"] - 1) + (lab["e"] - 1))]
+GOf(m) == IF m = 1 THEN GenG ELSE GenG2
 
 AllF == {1, 2, 3, 4, 5}
 TFrom == <<1, 2, 3, 2, 3>>
@@ -49,7 +56,7 @@ StockDimsOf(k) ==        \* stocks 1 (at A), 2 (at B), 3 (no process)
 
 Net(fl, p) == MapThenSumSet(LAMBDA f : TCoef[f], {f \in fl : TTo[f] = p}) - MapThenSumSet(LAMBDA f : TCoef[f], {f \in fl : TFrom[f] = p})
 
-MkSys(fl, k, sa, sb, sn, extra) ==
+MkSys(fl, k, sa, sb, sn, extra, gm) ==
     LET st == (IF sa THEN {1} ELSE {}) \cup (IF sb THEN {2} ELSE {}) \cup (IF sn THEN {3} ELSE {})
         net(s) == IF s = 1 THEN Net(fl, 2) ELSE IF s = 2 THEN Net(fl, 3) ELSE 2
     IN  [procs |-> IF extra THEN <<"sysenv", "A", "B", "idle">> ELSE <<"sysenv", "A", "B">>,
@@ -58,16 +65,16 @@ MkSys(fl, k, sa, sb, sn, extra) ==
          sin |-> [s \in 1..3 |-> IF net(s) >= 0 THEN net(s) + 1 ELSE 1],
          sout |-> [s \in 1..3 |-> IF net(s) >= 0 THEN 1 ELSE 1 - net(s)],
          slevel |-> <<5, 2, 7>>,
-         g |-> GenG]
+         g |-> GOf(gm)]
 
 NoPert == [obj |-> "none", id |-> 0, lab |-> <<>>, op |-> "add", val |-> VZero]
-Systems == {MkSys(fl, k, sa, sb, sn, ex) :
+Systems == {MkSys(fl, k, sa, sb, sn, ex, gm) :
                fl \in {F \in SUBSET AllF : F # {} /\ Cardinality(F) <= MaxFlows}, k \in Schemes,
-               sa \in BOOLEAN, sb \in BOOLEAN, sn \in BOOLEAN, ex \in BOOLEAN}
+               sa \in BOOLEAN, sb \in BOOLEAN, sn \in BOOLEAN, ex \in BOOLEAN, gm \in GModes}
 Balanced(S) == Failing(S, NoPert) = {}
 
 Init == /\ sys \in {S \in Systems : Balanced(S)}
-        /\ pert = NoPert /\ phase = "built" /\ scale = 0
+        /\ pert = NoPert /\ phase = "built" /\ scale = 0 /\ prev = NoPert
 
 \* the LAST labeling in row-major order and the first one: two cells per object
 CellsOf(ds) == LET rm == RowMajor(ds) IN {rm[1], rm[Len(rm)]}
@@ -83,10 +90,17 @@ Step == /\ phase = "built"
         /\ pert' \in Perts(sys)
         /\ phase' = "checked"
         /\ scale' \in (IF pert'.obj = "flow" /\ pert'.op = "add" THEN {0, 30, -30} ELSE {0})
-        /\ UNCHANGED sys
-Spec == Init /\ [][Step]_vars
+        /\ UNCHANGED <<sys, prev>>
+\* a second round on the SAME object: the NaN that the first round reported is replaced by a negative entry
+\* (verdicts follow the current values; nothing is remembered from the first round)
+Repair == /\ phase = "checked" /\ pert.obj = "flow" /\ pert.val.nan = 1 /\ scale = 0
+          /\ prev' = pert
+          /\ pert' = [pert EXCEPT !.op = "set", !.val = V(-1, 0, 0)]
+          /\ phase' = "repaired"
+          /\ UNCHANGED <<sys, scale>>
+Spec == Init /\ [][Step \/ Repair]_vars
 
-Checked == phase = "checked"
+Checked == phase \in {"checked", "repaired"}
 FlowNames(S) == {S.fname[f] : f \in S.flows}
 \* exception lists tried by the replay: none, the perturbed flow itself, every other flow
 Exceptions(S, P) == {{}} \cup (IF P.obj = "flow" THEN {{S.fname[P.id]}, FlowNames(S) \ {S.fname[P.id]}} ELSE {FlowNames(S)})
@@ -100,7 +114,7 @@ SysJson(S) == [procs |-> S.procs,
 PertJson(P) == [obj |-> P.obj, id |-> P.id, lab |-> LabTuple(P.lab), op |-> P.op, val |-> <<P.val.i, P.val.e, P.val.nan>>]
 
 EmitInv == (Emit /\ Checked) =>
-    PrintT(<<"VEC", ToJson([sys |-> SysJson(sys), pert |-> PertJson(pert), rescale |-> scale,
+    PrintT(<<"VEC", ToJson([sys |-> SysJson(sys), pert |-> PertJson(pert), prev |-> PertJson(prev), rescale |-> scale,
                             failing |-> {sys.procs[p] : p \in Failing(sys, pert)},
                             verdict |-> MassBalanceVerdict(sys, pert),
                             anynan |-> AnyNaN(sys, pert), nanbalance |-> HasNaNBalance(sys, pert),
@@ -111,7 +125,7 @@ EmitInv == (Emit /\ Checked) =>
 Prop_C02 ==
     Checked =>
       /\ MirrorLaw(sys, pert)
-      /\ pert = NoPert => MassBalanceVerdict(sys, pert) = "ok" /\ Flagged(sys, pert, {}) = {}
+      /\ pert = NoPert => MassBalanceVerdict(sys, pert) = "ok" /\ (sys.g = GenG => Flagged(sys, pert, {}) = {})
       \* a perturbation within the tolerance is accepted, one beyond it (or NaN) on a booked object is reported
       /\ (pert.op = "add" /\ pert.val = V(0, 1, 0)) => MassBalanceVerdict(sys, pert) = "ok"
       /\ (pert.op = "add" /\ pert.val \in {V(0, 4, 0), V(0, -4, 0), V(0, 0, 1)} /\ pert.obj = "flow")
@@ -119,7 +133,11 @@ Prop_C02 ==
       /\ (pert.op = "add" /\ pert.val \in {V(0, 4, 0), V(0, 0, 1)} /\ pert.obj \in {"sin", "sout"} /\ sys.sproc[pert.id] # 0)
             => {1, sys.sproc[pert.id]} \subseteq Failing(sys, pert)
       /\ (pert.obj \in {"sin", "sout"} /\ sys.sproc[pert.id] = 0) => MassBalanceVerdict(sys, pert) = "ok"
-      /\ (pert.obj = "flow" /\ pert.val \in {V(0, -4, 0), V(-1, 0, 0)} /\ pert.op = "set") => Flagged(sys, pert, {}) = {pert.id}
-      /\ (pert.obj = "flow" /\ pert.op = "set" /\ pert.val = V(0, -1, 0)) => Flagged(sys, pert, {}) = {}
-      /\ pert.obj = "flow" => Flagged(sys, pert, {sys.fname[pert.id]}) = {}
+      /\ (pert.obj = "flow" /\ pert.val \in {V(0, -4, 0), V(-1, 0, 0)} /\ pert.op = "set") => pert.id \in Flagged(sys, pert, {})
+      /\ sys.g = GenG =>       \* (with non-negative base values nothing else is flagged)
+           /\ (pert.obj = "flow" /\ pert.val \in {V(0, -4, 0), V(-1, 0, 0)} /\ pert.op = "set") => Flagged(sys, pert, {}) = {pert.id}
+           /\ (pert.obj = "flow" /\ pert.op = "set" /\ pert.val = V(0, -1, 0)) => Flagged(sys, pert, {}) = {}
+           /\ pert.obj = "flow" => Flagged(sys, pert, {sys.fname[pert.id]}) = {}
+      \* an all-zero or cancelling flow is booked like any other: the set of common dimensions does not depend on values
+      /\ \A p \in DOMAIN sys.procs : Common(sys, p) = Common([sys EXCEPT !.g = GenG], p)
 =============================================================================
